@@ -90,7 +90,10 @@ func c02Prop(st *CaseStats, fam int) func(t *rapid.T) {
 		sc := GenScenario(t)
 		cfg := CaseCfg{Family: fam, MaxDocs: 6, MaxIn: 3, HoldAny: true}
 		depth := 1
-		if fam == FamSmall || fam == FamMid || fam == FamManyFields {
+		if fam == FamHuge {
+			cfg.MaxIn = 2
+			depth = 1
+		} else if fam == FamSmall || fam == FamMid || fam == FamManyFields {
 			depth = rapid.SampledFrom([]int{1, 1, 2, 3}).Draw(t, "depth")
 		} else {
 			cfg.MaxIn = 2
@@ -163,4 +166,10 @@ func TestC02ManyFields(t *testing.T) {
 	st := NewStats("C02ManyFields", c02Rule)
 	defer st.Flush()
 	rapid.Check(t, c02Prop(st, FamManyFields))
+}
+
+func TestC02Huge(t *testing.T) {
+	st := NewStats("C02Huge", c02Rule)
+	defer st.Flush()
+	rapid.Check(t, c02Prop(st, FamHuge))
 }
